@@ -4,6 +4,7 @@ import sys, os
 sys.path.insert(0, os.path.dirname(os.path.abspath(__file__)))
 import arrays_check
 import argreuse
+import bigarrays
 arrays_check.run('C01', 'views',
                  'stream biased to chains of nested stepped slices and element/run writes read back through every other view',
                  ['Go runtime bounds checks and slice capacity rules are modelled (gslice len/cap), not verified',
@@ -12,4 +13,4 @@ arrays_check.run('C01', 'views',
                  allowed=['NEW','SLICE','GET','SET','GETN','SETN','APPLY','APPLYSLICE','COPYFROM','GET1','SET1','APPLY1','SHAPE','LEN','CONTIG','UNROLL'], use_iops=False, oracle='spec',
                  # Contiguous() and Unroll() are used as read-only probes between the slices and the writes (a read must not
                  # change what later views do); their own answers are C02's clauses and are not judged here
-                 unjudged=('CONTIG', 'UNROLL'), extra=argreuse.arg_reuse)
+                 unjudged=('CONTIG', 'UNROLL'), extra=lambda c: dict(argreuse.arg_reuse(c), **bigarrays.big_arrays(c, only=('COPYFROM', 'APPLYSLICE'))))
